@@ -85,7 +85,7 @@ def hostile_tokens(rng, g, n):
 
 def gen_case(rng, cid, pool_texts):
     kind = rng.choice(["bytes", "mutdesc", "mutdesc", "longnames", "longnames", "bigrule", "codes", "codes", "flags",
-                       "debug", "longdesc"])
+                       "debug", "longdesc", "manyalts"])
     L = ["C %d" % cid, "new 0"]
     feats = set()
     amode = rng.choice([0, 1, 2, 2, 2, 3])
@@ -132,6 +132,21 @@ def gen_case(rng, cid, pool_texts):
         L += emit_tokens(toks)
         L += ["parse 0 %d h" % (amode if amode != 3 else 2)]
         feats.add("long_rhs_%d" % k)
+    elif kind == "manyalts":
+        # hundreds of alternatives, each with its own lookahead context: the per-context tables of dynamic
+        # lookahead (and the symbol tables) have to grow
+        n = rng.choice([3, 40, 300, 600, 900])
+        terms = [("x", 1)] + [("t%d" % i, 10 + i) for i in range(n)]
+        rules = []
+        for i in range(n):
+            rules.append(Rule("S", ["A%d" % i, "t%d" % i], None, 0, [1]))
+            rules.append(Rule("A%d" % i, ["x"], "a", 1, [0]))
+        g = Grammar(terms, rules)
+        L += emit_config(0, la=rng.choice([2, 2, 1, 0]), one=rng.randrange(2), rec=rng.randrange(2))
+        L += emit_define(g, 0, 1)
+        L += emit_tokens([1, 10 + rng.randrange(n)] if rng.random() < 0.8 else [1, 1, 10])
+        L += ["parse 0 %d h" % (amode if amode != 3 else 2)]
+        feats.add("many_alternatives_%d" % n)
     elif kind == "codes":
         k = rng.randrange(2, 12)
         lay = code_layout(rng)
@@ -235,7 +250,7 @@ def _worker(args):
             sh.nontrivial.add(hash("\n".join(L)))
         sh.count("kind_" + kind)
         for f in feats:
-            sh.count("feature_" + (f if not f.startswith("long_rhs") else "long_rhs"))
+            sh.count("feature_" + ("long_rhs" if f.startswith("long_rhs") else "many_alternatives" if f.startswith("many_alt") else f))
     c0 = cases[0]
     sh.samples.append({"kind": c0[0], "scenario_head": c0[1][:6]})
     return sh.result()
@@ -276,7 +291,7 @@ def check(tier):
         ck.violation("memcheck:uninitialised_or_invalid@valgrind", err[-600:], {"scenario": scen, "variant": "plain", "report": err})
     elif rc != 0:
         ck.violation("memcheck_run_failed:%d@valgrind" % rc, err[-600:], {"scenario": scen, "variant": "plain", "report": err})
-    ck.cov["rule"] = ("single-object cases of 8 kinds: random byte strings as descriptions; 1-4x mutated valid "
+    ck.cov["rule"] = ("single-object cases of 9 kinds: random byte strings as descriptions; 1-4x mutated valid "
                       "descriptions; valid descriptions with identifiers up to 300 chars and up to 40 terminals; pool "
                       "grammars with all names replaced by 1..400-byte names (arbitrary bytes) plus an injected "
                       "definition defect (messages embed the names); chain grammars with rhs length up to 300; code "
